@@ -35,6 +35,7 @@ BOUNDS = {'quick': 'histories n <= 2 (all ordered pairs); schedules p <= 1 at li
                       'granularity for 6 large pairs, at opcode granularity for 2 pairs; p <= 2 for (fail_mode || make M1) at line and '
                       '(make M1 || make M1) at call granularity'}
 ASSUMPTIONS = ['preemption inside C-level calls is impossible under the GIL; more than two threads are not explored',
+               'every schedule is executed in a forked copy of a process that never ran a library operation, i.e. from the initial state',
                'state the canonicaliser cannot see (C-level globals) is covered only by the explicit histories, not by the self-loop argument',
                'creation timestamps of EPS/PDF/TeX are masked']
 CHUNK = 4
@@ -131,16 +132,33 @@ def _fn(name):
     return lambda: O.observe(name)[0]
 
 
+def _profile_child(a, b, gran):
+    ra, rb = O.digest(O.observe(a)[0]), O.digest(O.observe(b)[0])
+    return ra, rb
+
+
+def _exec_child(a, b, gran, start, switches):
+    res, st, pre = sched.Execution([_fn(a), _fn(b)], LIBDIR, start, switches, gran).run()
+    return tuple(O.digest(r) for r in res), tuple(st), pre, [repr(r)[:160] for r in res]
+
+
+def forked(fn, *args):
+    st, res = hist.run_forked(lambda: fn(*args))
+    if st != 'ok':
+        raise runner.CheckerError('forked execution failed: %s' % res)
+    return res
+
+
 def pair_profile(a, b, gran):
+    """Sequential references and scheduling-point counts.  Everything is executed in forked children of this (pristine)
+    worker, so that every execution starts from the library's initial state (lazily built globals not yet built)."""
     key = (a, b, gran)
     if key not in _PAIR_CACHE:
-        ra, rb = O.digest(O.observe(a)[0]), O.digest(O.observe(b)[0])
-        res, steps, _ = sched.Execution([_fn(a), _fn(b)], LIBDIR, 0, (), gran).run()
-        res2, steps2, _ = sched.Execution([_fn(a), _fn(b)], LIBDIR, 1, (), gran).run()
-        if steps != steps2 or [O.digest(r) for r in res] != [ra, rb] or [O.digest(r) for r in res2] != [ra, rb]:
-            _PAIR_CACHE[key] = ('unstable', (ra, rb), steps, steps2)
-        else:
-            _PAIR_CACHE[key] = ('ok', (ra, rb), steps, steps2)
+        ra, rb = forked(_profile_child, a, b, gran)
+        d1, steps, _, _ = forked(_exec_child, a, b, gran, 0, ())
+        d2, steps2, _, _ = forked(_exec_child, a, b, gran, 1, ())
+        ok = d1 == (ra, rb) and d2 == (ra, rb)
+        _PAIR_CACHE[key] = ('ok' if ok else 'unstable', (ra, rb), steps, steps2)
     return _PAIR_CACHE[key]
 
 
@@ -150,22 +168,20 @@ def _sched_task(task):
     out = []
     for (start, switches) in scheds:
         try:
-            res, st, pre = sched.Execution([_fn(a), _fn(b)], LIBDIR, start, switches, gran).run()
-            digs = tuple(O.digest(r) for r in res)
+            digs, st, pre, shown = forked(_exec_child, a, b, gran, start, switches)
             bad = digs != refs
             rec = {'start': start, 'switches': list(switches), 'bad': bad, 'steps': list(st), 'preemptions': pre}
             if bad:
-                # replay twice: identical observations required before the failure is trusted
-                again = []
-                for _ in range(2):
-                    r2, st2, _p = sched.Execution([_fn(a), _fn(b)], LIBDIR, start, switches, gran).run()
-                    again.append((tuple(O.digest(r) for r in r2), tuple(st2)))
+                # replay twice (each from the initial state): identical observations required before the failure is trusted
+                again = [forked(_exec_child, a, b, gran, start, switches) for _ in range(2)]
                 rec['replay_identical'] = all(x[0] == digs for x in again)
                 rec['which'] = [i for i in (0, 1) if digs[i] != refs[i]]
-                rec['observed'] = [repr(r)[:160] for r in res]
+                rec['observed'] = shown
             out.append(rec)
-        except sched.Deadlock as e:
-            out.append({'start': start, 'switches': list(switches), 'bad': True, 'deadlock': str(e), 'steps': [0, 0], 'preemptions': 0})
+        except runner.CheckerError as e:
+            if 'Deadlock' not in str(e):
+                raise
+            out.append({'start': start, 'switches': list(switches), 'bad': True, 'deadlock': str(e)[-200:], 'steps': [0, 0], 'preemptions': 0})
     return (a, b, gran, status, steps, out)
 
 
@@ -310,10 +326,11 @@ def main(tier, seed, jobs, t0):
         sched_detail = []
         outcomes = set()
         for (a, b, gran, bound) in plan:
-            status, prefs, steps, _ = pool.apply(pair_profile, (a, b, gran))
+            status, prefs, steps, _s2 = pool.apply(pair_profile, (a, b, gran))
             if status != 'ok':
                 acc.violation('thread-unstable/%s+%s' % (a, b), 'pair (%s, %s): even the two non-preemptive schedules disagree with the sequential '
                               'references or with each other (steps %r)' % (a, b, steps), ('sched', a, b, gran, 0, []))
+            steps = tuple(max(x, y) for x, y in zip(steps, _s2))
             allsch = list(sched.schedules(steps, bound))
             random.Random(seed).shuffle(allsch)
             size = max(1, min(200, len(allsch) // (jobs * 4) or 1))
@@ -390,8 +407,8 @@ def replay(path):
         status, refs, steps, _ = pair_profile(a, b, gran)
         runs = []
         for _ in range(2):
-            res, st, pre = sched.Execution([_fn(a), _fn(b)], LIBDIR, start, tuple(switches), gran).run()
-            runs.append((tuple(O.digest(r) for r in res), st))
+            digs, st, pre, shown = forked(_exec_child, a, b, gran, start, tuple(switches))
+            runs.append((digs, st))
         if runs[0] != runs[1]:
             print('CHECKER-ERROR: replaying the schedule twice gave different observations (uncaptured nondeterminism)')
             return 2
